@@ -48,7 +48,7 @@ Note: chain.TestBitcoindEvents fails in this sandbox even on the original code (
 
 - `_seed/patch.diff` : output of `git diff` for the NON-test source change only (must apply with `git apply` to a clean checkout of the same commit).
 - `_seed/demo_test.go.txt` : a copy of your demonstration test file, and `_seed/demo_path.txt` containing the repo-relative path where it must be placed to run (e.g. `wtxmgr/seeded_demo_test.go`) and the exact `go test -run ...` command (with the directory to run it in).
-- `_seed/README.md` : which property it breaks, WHY the change violates it, what specific condition is needed for the violation to manifest, which existing tests you ran (and that they passed), and the output of the demo test failing WITH the change and passing WITHOUT it (use `git stash` / `git apply -R` to check the 'without' case; leave the worktree with the change applied at the end).
+- `_seed/README.md` : which property it breaks, WHY the change violates it, what specific condition is needed for the violation to manifest, which existing tests you ran (and that they passed), and the output of the demo test failing WITH the change and passing WITHOUT it (use `git diff > f && git apply -R f` (NOT `git stash`: the stash is shared by all worktrees of the repository) to check the 'without' case; leave the worktree with the change applied at the end).
 
 Before finishing, verify yourself: (a) `git apply --check` of patch.diff on a clean state works, (b) existing tests of touched packages pass with the change, (c) demo fails with the change and passes without it. Report briefly what you did. Think carefully about subtlety: the more specific the trigger, the better, as long as it is a genuine violation of the stated property.
 {extra}
